@@ -45,6 +45,28 @@ type run struct {
 	m     qt.Model
 	all   []*qt.Pt // every pointer ever created (for re-adding removed ones, removing absent ones)
 	nextI int
+	nq    int
+	prev  []orb.Pointer // the caller's previous result; chained queries hand it back as their buffer
+	kept  []keptResult  // results the caller holds on to and never hands back
+}
+
+// keptResult is a result slice the caller keeps while it goes on using the
+// tree: what a search returned belongs to the caller unless it passes the
+// slice in again as a buffer.
+type keptResult struct {
+	desc string
+	got  qt.Result // the slice as returned
+	was  qt.Result // its contents at that moment
+}
+
+func (r *run) keptIntact() bool {
+	for _, k := range r.kept {
+		if !k.got.SameAs(k.was) {
+			r.fail("result-stable", "later-call", "the slice returned by %s changed during later calls on the tree: now %v, was %v", k.desc, k.got, k.was)
+			return false
+		}
+	}
+	return true
 }
 
 func (r *run) newPt(p orb.Point) *qt.Pt {
@@ -167,7 +189,27 @@ func (r *run) remove(desc string, probe *qt.Pt, eq quadtree.FilterFunc, accept f
 func (r *run) query(q *qt.Query) bool {
 	var res qt.Result
 	api := qt.QueryNames[q.Kind]
-	if r.t.Guard(api, func() { res = q.Exec(r.tr) }) {
+	if r.t.Guard(api, func() { res = q.ExecBuf(r.tr, r.prev) }) {
+		return false
+	}
+	if !res.IsOne {
+		r.nq++
+		if r.nq%3 == 0 {
+			r.prev = res.Many
+		} else {
+			// never handed back: must stay as returned (the four most recent are watched)
+			if q.BufCap == qt.Chain {
+				r.prev = nil // the result may live in the buffer that was handed in: it is not handed in again
+			}
+			k := keptResult{desc: q.String(), got: res, was: res.Clone()}
+			if len(r.kept) < 4 {
+				r.kept = append(r.kept, k)
+			} else {
+				r.kept[r.nq%4] = k
+			}
+		}
+	}
+	if !r.keptIntact() {
 		return false
 	}
 	// hashed always, rendered only when the run is being kept (replay, samples)
